@@ -80,6 +80,12 @@ func (x *Exec) bstrOf(st *State, s string) string {
 			c.bstrDone[key] = true
 			parent, objRef := heapStep(cur)
 			if parent == "" {
+				if p2, ok := x.heapStepTH(cur, "H:"+bs); ok {
+					c.assume(eq(sx("bstr", cur, s), sx("bstr", p2, s)))
+					cur = p2
+					key = cur + "|" + s
+					continue
+				}
 				break
 			}
 			c.assume(implies(not(eq(objRef, sx("ref", sx("sl_arr", s)))), eq(sx("bstr", cur, s), sx("bstr", parent, s))))
